@@ -43,7 +43,13 @@ class Light(light.Light):
 class MultizoneLight(Light, i_controller.MultizoneLight):
     def __init__(self, impl, num_zones=None):
         super().__init__(impl)
-        self._num_zones = num_zones or len(self.get_zone_colors())
+        if not num_zones:
+            zone_colors = self.get_zone_colors()
+            if zone_colors is None:
+                raise i_controller.LightException(
+                    'No zone information from "{}".'.format(self.get_name()))
+            num_zones = len(zone_colors)
+        self._num_zones = num_zones
 
     def get_num_zones(self) -> int:
         return self._num_zones
